@@ -58,6 +58,9 @@ for p in props:
         continue
     partial = [t for t in o['theorems'] if 'partial' in t]
     L += ['', '`' + '`, `'.join(t.replace('NV.', '', 1) for t in o['theorems']) + '`', '']
+    if o.get('tie_theorems'):
+        L += ['Translation tie (section 4.5; re-checked against the current source text on every run): `' +
+              '`, `'.join(t.replace('NV.', '', 1) for t in o['tie_theorems']) + '`', '']
     if partial:
         L += ['Partial (full statement in the doc comment of the theorem): `' + '`, `'.join(partial) + '`', '']
     if o.get('modelled_not_verified'):
